@@ -308,6 +308,7 @@ pub fn alphabet_h() -> Vec<Named> {
         ("edge_each_12_12", Q(q::edges_each(vec![id(1), id(2)], vec![id(1), id(2)]))),
         ("edge_1_2_values", Q(q::edges_uniform(vec![id(1)], vec![id(2)], vec![kv(K, 1_i64)]))),
         ("edge_1_missing", Q(q::edges(vec![id(1)], vec![id(9)]))),
+        ("edge_1_to_edge", Q(q::edges(vec![id(1)], vec![id(-4)]))),
         ("values_1_k2", Q(q::values(vec![id(1)], vec![vec![kv(K, 2_i64)]]))),
         ("values_1_newkey", Q(q::values(vec![id(1)], vec![vec![kv(KL, 1_i64)]]))),
         ("values_1_long", Q(q::values(vec![id(1)], vec![vec![kv(K, VS)]]))),
@@ -507,6 +508,25 @@ fn dump_inner(db: &dyn DbLike, with_searches: bool) -> Result<Dump, String> {
 }
 
 impl Dump {
+    /// id-insensitive summary: counts and the multiset of property sets, alias names, index listing
+    pub fn shape(&self) -> String {
+        let mut props: Vec<String> = self
+            .elements
+            .iter()
+            .map(|e| {
+                let mut v: Vec<String> = e.values.iter().map(|(k, v)| format!("{k:?}={v:?}")).collect();
+                v.sort();
+                format!("{}{{{}}}kc={}", if e.id > 0 { "n" } else { "e" }, v.join(","), e.key_count)
+            })
+            .collect();
+        props.sort();
+        let mut al: Vec<String> = self.aliases.iter().map(|a| a.0.clone()).collect();
+        al.sort();
+        let mut ix: Vec<String> = self.indexes.iter().map(|(k, v)| format!("{k:?}:{v:?}")).collect();
+        ix.sort();
+        format!("nodes={};elements={:?};aliases={al:?};indexes={ix:?}", self.node_count, props)
+    }
+
     /// exact, order-preserving rendering
     pub fn ordered(&self) -> String {
         format!("{self:?}")
